@@ -875,6 +875,14 @@ def nest_form(facts, body, rounds=24, yields=True, collects=False):
     if cur is not body:
         cur.fused = fused
         cur.yields = did_yield
+    # a loop over a small constant table is one copy of its body per element (pk/unroll.py)
+    from .unroll import unroll_const_loops
+    keep0 = {k: getattr(cur, k) for k in ('fused', 'yields', 'inlined', 'original', 'key_in_facts') if hasattr(cur, k)}
+    cur_u = unroll_const_loops(facts, cur)
+    if cur_u is not cur:
+        for k, v in keep0.items():
+            setattr(cur_u, k, v)
+        cur = cur_u
     # values that travel together in a struct / tuple become one local per field (pk/sroa.py)
     from .sroa import sroa
     cur = sroa(facts, cur)
